@@ -146,3 +146,34 @@ func (r *region) paramForD(f *ssa.Function, ap *ssa.Parameter, depth int) *ssa.P
 	}
 	return f.Params[idx]
 }
+
+// resolve: a parameter of a region helper stands for the argument it receives,
+// when every call site in the region passes the same value (followed upwards
+// to the anchor's frame); other values stand for themselves.
+func (r *region) resolve(v ssa.Value) ssa.Value {
+	for d := 0; d < 5; d++ {
+		prm, ok := v.(*ssa.Parameter)
+		if !ok || prm.Parent() == r.anchor {
+			return v
+		}
+		idx := -1
+		for i, q := range prm.Parent().Params {
+			if q == prm {
+				idx = i
+			}
+		}
+		sites := r.sites[prm.Parent()]
+		if idx < 0 || len(sites) == 0 {
+			return v
+		}
+		var arg ssa.Value
+		for _, s := range sites {
+			if idx >= len(s.Call.Args) || (arg != nil && s.Call.Args[idx] != arg) {
+				return v
+			}
+			arg = s.Call.Args[idx]
+		}
+		v = arg
+	}
+	return v
+}
